@@ -47,6 +47,12 @@ def run(chk):
         ev = [rng.choice([-1.0, 0.0, 0.0, 0.5, 1.0, 1.0, 2.0]) for _ in range(d)]
         V = haar(rng, d) if rng.random() < 0.6 else structured(rng, d)
         shape = "generic"
+        if it % 10 == 1:
+            # stratum: all diagonal entries of the operator equal (circulant: the eigenbasis is the Fourier basis) although the
+            # spectrum is not degenerate
+            shape = "constant-diagonal"
+            ev = rng.sample([-1.0, 0.0, 0.5, 1.0, 2.0], d)
+            V = np.array([[np.exp(2j * np.pi * j_ * k_ / d) for k_ in range(d)] for j_ in range(d)]) / np.sqrt(d)
         if it % 10 in (3, 6, 9):
             # strata: a basis only slightly tilted away from the eigenbasis (rotation angle 1e-2 .. 1e-5), a large multiple of the
             # identity on top of the operator, a tiny off-diagonal element on a diagonal operator
@@ -80,6 +86,20 @@ def run(chk):
         scale_ = max(1.0, np.abs(O).max())
         if dev_u > 1e-10 or dev_r > 1e-10 * scale_ or np.abs(np.diag(w).imag).max() > 1e-10 * scale_ or np.abs(w - np.diag(np.diag(w))).max() > 1e-10 * scale_:
             chk.fail("transform-not-unitary", f"Bath.unitary_transform: |U^+U-1|={dev_u:.2e}, reconstruction error {dev_r:.2e} for eigenvalues {ev}", info)
+        # the degeneracy maps (used with unique=True) depend on the spectrum only: two index pairs share a class exactly if they
+        # have the same eigenvalue difference (west) / the same difference and sum (north); exact for the generated spectra
+        if shape in ("generic", "constant-diagonal") and dev_r <= 1e-10:
+            lam = np.round(np.diag(w).real, 6)
+            pairs = [(i_, j_) for i_ in range(d) for j_ in range(d)]
+            for nm_, keyf in (("west", lambda i_, j_: (lam[i_] - lam[j_],)), ("north", lambda i_, j_: (lam[i_] - lam[j_], lam[i_] + lam[j_]))):
+                m_ = np.array(getattr(b, nm_ + "_degeneracy_map"))
+                same_map = [[m_[x_] == m_[y_] for y_ in range(d * d)] for x_ in range(d * d)]
+                same_key = [[bool(np.allclose(keyf(*pairs[x_]), keyf(*pairs[y_]), atol=1e-5)) for y_ in range(d * d)] for x_ in range(d * d)]
+                # (a finer map only compresses less; merging pairs with different keys changes the physics)
+                if len(m_) != d * d or any(same_map[x_][y_] and not same_key[x_][y_] for x_ in range(d * d) for y_ in range(d * d)):
+                    chk.fail("degeneracy-map:" + nm_, f"Bath.{nm_}_degeneracy_map merges index pairs with different eigenvalue "
+                             f"{'differences' if nm_ == 'west' else 'differences and sums'} (eigenvalues {list(lam)}: map {m_.tolist()})", info)
+                    break
 
     # ---- (c) covariance through the public methods ------------------------------------------------
     for it in range(30 if (thorough or chk.disagreements or chk.broken) else 9):
@@ -103,6 +123,13 @@ def run(chk):
         storage = rng.choice(["memory", "file-backed", "exported+imported", "exported+imported-simple"]) if method == "pttempo" else "memory"
         if it < 3:
             method, storage = "pttempo", ["file-backed", "exported+imported", "exported+imported-simple"][it]      # every run: all file routes of PT-TEMPO
+        if it in (3, 4):
+            # every run (TEMPO and PT-TEMPO): degeneracy checking on, non-degenerate spectrum, and a rotated basis in which all
+            # DIAGONAL ENTRIES of the coupling operator are equal (Fourier basis)
+            method, unique, storage = ["tempo", "pttempo"][it - 3], True, "memory"
+            ev = rng.sample([-1.0, 0.0, 0.5, 1.0], d)
+            O = np.diag(ev).astype(complex)
+            V = np.array([[np.exp(2j * np.pi * j_ * k_ / d) for k_ in range(d)] for j_ in range(d)]) / np.sqrt(d)
         info = {"kind": "covariance", "method": method, "d": d, "eigenvalues": ev, "dkmax": dkmax, "unique": unique, "process_tensor": storage}
 
         def solve(Hh, Oo, rr):
